@@ -440,7 +440,10 @@ let handle line =
        let bs = bytes_of_hex h in
        if pty = "Bool" then
          (match validate TBool N0 bs with
-          | Ok () -> Some (Printf.sprintf "%s bits=%s flatalign=1 flatsize=1" cid (hex_of_n (p_dec be bs)))
+          | Ok () ->
+            (* the value is the first byte, whatever follows it in the slice *)
+            let b1 = (match bs with b :: _ -> [b] | [] -> []) in
+            Some (Printf.sprintf "%s bits=%s flatalign=1 flatsize=1" cid (hex_of_n (p_dec be b1)))
           | _ -> Some (cid ^ " invalid"))
        else Some (Printf.sprintf "%s bits=%s flatalign=1 flatsize=%d" cid (hex_of_n (p_dec be bs)) n)
      | "val", h :: _ -> Some (cid ^ " " ^ res_s unit_s (validate TBool N0 (bytes_of_hex h)))
